@@ -268,6 +268,21 @@ theorem reach_step (w w' : World) (op : Op) (hs : w.step op = some w') : Reach w
         exact reach_doClearRow w _ _
       · cases hs
     · cases hs
+  | fimport clear vals =>
+    simp only [World.step] at hs
+    split at hs
+    · split at hs
+      · cases hs
+        refine reach_prims _ _ ?_
+        intro p hp
+        unfold importPlan at hp
+        simp only [List.mem_filterMap] at hp
+        obtain ⟨kv, _, e⟩ := hp
+        simp only [importOne, Option.map_eq_some_iff] at e
+        obtain ⟨v, _, e⟩ := e
+        subst e; rfl
+      · cases hs
+    · cases hs
   | fsnap =>
     simp only [World.step] at hs
     split at hs
